@@ -24,12 +24,18 @@ def prepare(tier):
 
 def generate(rnd, tier):
     r = rnd.random()
-    if r < 0.25:
+    if r < 0.15:
         L = gen.LOGICS["PROP"]
         opts, _, _, _ = gen.gen_options(rnd, L, set(), True, None)
         s = gen.gen_ksat(rnd, False, 6, 18, opts)
         return s
-    script, _, _ = gen.gen_script(rnd, tier, planted_p=0.5, queries=False)
+    if r < 0.55:
+        # hard random clause sets over theory atoms (several bounds per linear term): long implication graphs with
+        # theory-propagated literals, many conflicts and minimised learnt clauses
+        script, _, _ = gen.gen_script(rnd, tier, planted_p=0.0, queries=False, dense_p=1.0, hard=True, hist_p=0.2,
+                                      logic_keys=["QF_LRA", "QF_LIA", "QF_RDL", "QF_IDL", "QF_UF", "QF_UFLRA", "QF_UFLIA", "QF_AX"])
+        return script
+    script, _, _ = gen.gen_script(rnd, tier, planted_p=0.5, queries=False, dense_p=0.65)
     return script
 
 
@@ -62,3 +68,20 @@ def check(case, ctx):
 
 def sample(case, res):
     return gen.render(case)
+
+
+def _sig_after_sort_error(case, res):
+    """a check-sat aborted by the internal error "Equality over non-equal sorts" (mixed Int/Real logic) leaves the SAT
+    engine in mid-search state; the next check-sat's SatELite pass turns the leftover assignments into units"""
+    r = osmt.run_marked(case, "fast", 10)
+    seen_err = False
+    for i, c in enumerate(case["cmds"]):
+        if c[0] == "check-sat":
+            if seen_err:
+                return True
+            if any("Equality over non-equal sorts" in x for x in (r.resp.get(i) or [])):
+                seen_err = True
+    return False
+
+
+SIGNATURES = {"derived-units-after-check-sat-failed-with-sort-error": _sig_after_sort_error}
